@@ -18,6 +18,7 @@ import (
 	"github.com/mithrandie/csvq/lib/file"
 	"github.com/mithrandie/csvq/lib/query"
 
+	"github.com/mithrandie/csvq/lib/verifshim/vrt"
 	"verif/harness/internal/core"
 	"verif/harness/internal/drv"
 	"verif/harness/internal/fsx"
@@ -428,9 +429,24 @@ type c09Scenario struct {
 	counter      string // sql scenarios: the counter table the oracle judges (default t)
 	heldFrom     int    // sql scenarios: from its heldFrom-th statement on, until it starts to commit, process 1 holds the counter table for update (0: not judged)
 	noCounter    bool   // the final value is not judged (the first mention of the table is a plain read: the documented reload applies)
+	revToo       bool   // the statement ranges over Go maps (multi-table UPDATE/DELETE): explored once per map order, ascending and descending
+	mapOrder     string // "" ascending, "rev" descending (set by c09Scenarios for the copy of a revToo scenario)
 }
 
 func c09Scenarios() []c09Scenario {
+	var out []c09Scenario
+	for _, s := range c09ScenarioList() {
+		out = append(out, s)
+		if s.revToo {
+			s.name += " (map ranges descending)"
+			s.mapOrder = "rev"
+			out = append(out, s)
+		}
+	}
+	return out
+}
+
+func c09ScenarioList() []c09Scenario {
 	one := map[string]int{"t.csv": 5}
 	two := map[string]int{"t.csv": 5, "u.csv": 7}
 	return []c09Scenario{
@@ -471,6 +487,29 @@ func c09Scenarios() []c09Scenario {
 		}},
 		{name: "sql SELFU(derived(t) JOIN t) t:=@n+1|INC", tables: one, sql: true, heldFrom: 3, noCounter: true, bodies: func(d string) []func(*fsx.Proc) {
 			return sqlBodies(d, "VAR @n; SELECT t.n INTO @n FROM (SELECT MAX(n) AS m FROM t) AS mx JOIN t ON t.n = mx.m FOR UPDATE; UPDATE t SET n = @n + 1;", "UPDATE t SET n = n + 1;")
+		}},
+		// every kind of data-changing statement holds its tables from its first step until the transaction ends: while the
+		// first process runs a further statement, the second cannot install new contents of the table
+		{name: "sql held: DELETE t|INC t", tables: one, sql: true, heldFrom: 2, noCounter: true, bodies: func(d string) []func(*fsx.Proc) {
+			return sqlBodies(d, "DELETE FROM t WHERE n < 0; SELECT 1;", "UPDATE t SET n = n + 1;")
+		}},
+		{name: "sql held: UPDATE t,u|INC u", tables: two, sql: true, revToo: true, counter: "u", heldFrom: 2, noCounter: true, bodies: func(d string) []func(*fsx.Proc) {
+			return sqlBodies(d, "UPDATE t, u SET t.n = t.n + 1, u.n = u.n FROM t JOIN u ON 1 = 1; SELECT 1;", "UPDATE u SET n = n + 1;")
+		}},
+		{name: "sql held: DELETE t,u|INC u", tables: two, sql: true, revToo: true, counter: "u", heldFrom: 2, noCounter: true, bodies: func(d string) []func(*fsx.Proc) {
+			return sqlBodies(d, "DELETE t, u FROM t JOIN u ON t.n < 0; SELECT 1;", "UPDATE u SET n = n + 1;")
+		}},
+		{name: "sql held: INSERT t|INC t", tables: one, sql: true, heldFrom: 2, noCounter: true, thoroughOnly: true, bodies: func(d string) []func(*fsx.Proc) {
+			return sqlBodies(d, "INSERT INTO t VALUES (100); SELECT 1;", "UPDATE t SET n = n + 1;")
+		}},
+		{name: "sql held: REPLACE t|INC t", tables: one, sql: true, heldFrom: 2, noCounter: true, thoroughOnly: true, bodies: func(d string) []func(*fsx.Proc) {
+			return sqlBodies(d, "REPLACE INTO t (n) USING (n) VALUES (5); SELECT 1;", "UPDATE t SET n = n + 1;")
+		}},
+		{name: "sql held: ALTER t|INC t", tables: one, sql: true, heldFrom: 2, noCounter: true, thoroughOnly: true, bodies: func(d string) []func(*fsx.Proc) {
+			return sqlBodies(d, "ALTER TABLE t ADD c; SELECT 1;", "UPDATE t SET n = n + 1;")
+		}},
+		{name: "sql held: INSERT-SELECT u<-t|INC u", tables: two, sql: true, counter: "u", heldFrom: 2, noCounter: true, thoroughOnly: true, bodies: func(d string) []func(*fsx.Proc) {
+			return sqlBodies(d, "INSERT INTO u SELECT n FROM t; SELECT 1;", "UPDATE u SET n = n + 1;")
 		}},
 		{name: "sql INC|SEL", tables: one, sql: true, bodies: func(d string) []func(*fsx.Proc) { return sqlBodies(d, "UPDATE t SET n = n + 1;", "SELECT n FROM t;") }},
 		{name: "sql INC,ROLLBACK|INC", tables: one, sql: true, bodies: func(d string) []func(*fsx.Proc) {
@@ -535,6 +574,11 @@ func c09RunScenario(c *core.Ctx, s c09Scenario, deadline time.Time, replay []str
 					if strings.HasPrefix(l, "rename") || strings.HasPrefix(l, "truncate") {
 						committing = true
 					}
+					// a transaction that changed nothing ends by releasing the table: its first close of one of the
+					// table's files is the end of the hold
+					if stmts >= from && (strings.HasPrefix(l, "close") || strings.HasPrefix(l, "remove")) && strings.Contains(l, tbl+".csv") {
+						committing = true
+					}
 				}
 				l2 := p2.Log()
 				if stmts >= from && !committing && !p1.Done() && len(l2) > 0 && strings.HasPrefix(l2[len(l2)-1], "rename") && strings.Contains(l2[len(l2)-1], tbl+".csv") {
@@ -544,6 +588,10 @@ func c09RunScenario(c *core.Ctx, s c09Scenario, deadline time.Time, replay []str
 			}
 		}
 	}
+	// map iteration order is an environment answer the harness owns: every range over a Go map inside csvq visits its
+	// keys in ascending (or, for the copy of a scenario, descending) order, so that an execution can be replayed
+	vrt.SetProcOrder(s.mapOrder, true)
+	defer vrt.SetProcOrder("", false)
 	ex := fsx.NewExplorer(sc, core.Scratch("c09-"+strings.NewReplacer("|", "_", "(", "", ")", "", ",", "", " ", "-").Replace(s.name)), deadline)
 	if replay != nil {
 		ex.Replay(fsx.ParseSchedule(replay))
@@ -583,6 +631,9 @@ func c09Run(c *core.Ctx) {
 		k++
 		if !c.Mine(int64(k)) {
 			continue
+		}
+		if only := os.Getenv("VERIF_C09_ONLY"); only != "" && !strings.Contains(s.name, only) {
+			continue // development aid
 		}
 		c09RunScenario(c, s, c.Deadline, nil)
 	}
